@@ -8,6 +8,26 @@ using A = vt::alloc<E>;
 using V = gch::small_vector<E, VT_N, A>;
 template class gch::small_vector<E, VT_N, A>;
 
+#ifdef VT_M
+// a second inline capacity: conversions between containers of different inline capacity
+using VM = gch::small_vector<E, VT_M, A>;
+template class gch::small_vector<E, VT_M, A>;
+void vt_force_pair (V& v, const V& cv, VM& m, const VM& cm, A a)
+{
+  V c1 (cm);                                  // converting copy
+  V c2 (static_cast<VM&&> (m));               // converting move
+  V c3 (cm, a);
+  V c4 (static_cast<VM&&> (m), a);
+  v.assign (cm);
+  v.assign (static_cast<VM&&> (m));
+  v.append (cm);
+  v.append (static_cast<VM&&> (m));
+  (void) (cv == cm);
+  (void) (cv != cm);
+  (void) (cv < cm);
+}
+#endif
+
 // member templates and overloads that explicit instantiation does not reach
 void vt_force (V& v, const V& cv, const E& e, E&& re, vt::input_it ii, vt::fwd_it fi, const E *p, vt::gen g, A a)
 {
@@ -29,4 +49,20 @@ void vt_force (V& v, const V& cv, const E& e, E&& re, vt::input_it ii, vt::fwd_i
   V a2 (fi, fi, a);
   V a3 (p, p, a);
   V a4 (3, g, a);
+  v.append (cv);
+  v.append (static_cast<V&&> (v));
+  (void) (cv == cv);
+  (void) (cv != cv);
+  (void) (cv < cv);
+  (void) (cv <= cv);
+  (void) (cv > cv);
+  (void) (cv >= cv);
+  swap (v, v);
+  (void) erase (v, e);
+  (void) size (cv);
+  (void) ssize (cv);
+  (void) empty (cv);
+  (void) data (v);
+  (void) begin (v);
+  (void) end (v);
 }
